@@ -609,7 +609,12 @@ TokenLogOK(toks, ten, tex) ==
        /\ ten[j].l = toks[j].sl
        /\ ten[j].c = toks[j].sc
        /\ ten[j].ch = toks[j].ch0
-  /\ \A q \in (Len(toks) + 1)..Len(tex) : tex[q].ch = 0
+  \* a further request at the end of the input: the end-of-input token again, lexer still at the end
+  /\ \A q \in (Len(toks) + 1)..Len(tex) :
+       /\ tex[q].ch = 0
+       /\ Len(toks) > 0 =>
+            /\ ten[q].l = toks[Len(toks)].sl /\ ten[q].c = toks[Len(toks)].sc /\ ten[q].ch = 0
+            /\ tex[q].l = toks[Len(toks)].sl /\ tex[q].c = toks[Len(toks)].sc
 
 \* statement nodes of a tree (also of a tree returned with errors): each was produced by one
 \* statement parse step, so a statement interceptor has entered at least that many times
